@@ -134,9 +134,6 @@ def discover_stores(p: Project) -> List[StoreInfo]:
             if L not in inits:
                 raise AnalysisError(f'{ci.label}: role list self.{L} is not initialised to [] in __init__')
         lists = set(ROLE_LISTS) | {L for L in OPT_LISTS if L in inits} | {'items'}
-        H = infer_holders(p, ci.key, methods, lists)
-        if 'items' not in H:
-            raise AnalysisError(f'{ci.label}: holding-list inference did not find items (got {H})')
         # available list: the list whose len the get-grant compares with len(reservations_get)
         avail = None
         for n in walk_no_nested(methods['_do_reserve_get'].node):
@@ -149,6 +146,10 @@ def discover_stores(p: Project) -> List[StoreInfo]:
                             avail = nm
         if avail is None:
             raise AnalysisError(f'{ci.label}: cannot determine the available list from _do_reserve_get')
+        # holding lists: inferred by value flow from put, plus the available list (get hands its elements out)
+        H = sorted(set(infer_holders(p, ci.key, methods, lists)) | {avail})
+        if 'items' not in H:
+            raise AnalysisError(f'{ci.label}: holding-list inference did not find items (got {H})')
         roots = set()
         for c in p.mro(ci.key):
             for fi in c.methods.values():
